@@ -339,19 +339,20 @@ mutual
       let textStart : Pos := match sc.2 with
         | some ce => ce
         | none => p
-      let textBranch : Res (Content × Pos) :=
+      -- (a function, so that the compiled driver evaluates it only where the C++ code gets there)
+      let textBranch : Unit → Res (Content × Pos) := fun _ =>
         (parseText t textStart).bind fun tx =>
         (parseContent t f tx.2).bind fun c => .ok (.text tx.1 c.1, c.2)
       match tokenAt t sc.1 with
       | .oob => .oob
       | .fuel => .fuel
-      | .err _ _ _ => textBranch
+      | .err _ _ _ => textBranch ()
       | .ok tp =>
         if tp.1.type = .endTagBegin then .ok (.nil, tp.2)
         else if tp.1.type = .startTagBegin then
           (parseElement t f tp.1.pos tp.2).bind fun e =>
           (parseContent t f e.2).bind fun c => .ok (.elem e.1 c.1, c.2)
-        else textBranch
+        else textBranch ()
 end
 
 def isPiScanStop (b : UInt8) : Bool := b == 13 || b == 10 || b == 63
